@@ -264,6 +264,10 @@ def _plugin_cases(tier):
         for p in pairs:
             for st in ("plain", "uni", "comment"):
                 cases.append({"kind": "newline", "nl": nl, "names": p, "style": st, "F": list(CATS)})
+    # a process whose locale encoding is not UTF-8 (cold interpreter, LC_ALL=C without UTF-8 mode): files are UTF-8 regardless
+    for p in pairs[:4]:
+        for F in (list(CATS), ["create", "fix"]):
+            cases.append({"kind": "locale", "names": p, "style": "uni", "F": F})
     # source encodings python accepts: UTF-8 with a byte order mark, PEP 263 coding cookies
     for enc in ("bom", "latin-1", "cp1252"):
         for p in pairs:
@@ -285,6 +289,8 @@ def _plugin_file(c):
     if kind == "newline":
         src = build_file([(c["names"], c["style"]), (["none"], "plain")])
         return src.replace("\n", c["nl"])
+    if kind == "locale":
+        return build_file([(c["names"], c["style"]), (["none"], "comment")])
     if kind == "encoding":
         src = build_file([(c["names"], c["style"]), (["none"], "plain")])
         if c["enc"] != "bom":
@@ -337,7 +343,11 @@ def _judge_plugin(c):
     codec = {"bom": "utf-8-sig", "latin-1": "latin-1", "cp1252": "cp1252"}[c["enc"]] if c["kind"] == "encoding" else "utf-8"
     d = plugin.mk_project({"test_something.py": src.encode(codec), "pyproject.toml": pp})
     try:
-        r = plugin.session(d, ["--inline-snapshot=" + ",".join(c["F"])])
+        if c["kind"] == "locale":
+            r = plugin.cold_session(d, ["--inline-snapshot=" + ",".join(c["F"])],
+                                    env={"LC_ALL": "C", "LANG": "C", "PYTHONUTF8": "0", "PYTHONCOERCECLOCALE": "0", "PYTHONIOENCODING": "utf-8"})
+        else:
+            r = plugin.session(d, ["--inline-snapshot=" + ",".join(c["F"])])
         raw = plugin.listing(d)["test_something.py"]
     finally:
         plugin.cleanup()
@@ -364,7 +374,7 @@ def _judge_plugin(c):
     cats = []
     if c["kind"] == "import":
         cats = [(SITES.get(n) or PLUGIN_SITES[n])[3] for n in c["names"]] + [None]
-    elif c["kind"] in ("newline", "encoding"):
+    elif c["kind"] in ("newline", "encoding", "locale"):
         cats = [SITES[n][3] for n in c["names"]] + [None]
     else:
         cats = [SITES[n][3] for n in c["names"]] + [SITES[c["names"][0]][3]]
